@@ -19,7 +19,7 @@ def run(rep, kf, tier, seed):
 
     def tu():
         r = core.Report("C11", tier, seed)
-        engine_b.discharge(r, kf, [ts.union_inner_flags_contract()], "C11", tier, seed)
+        engine_b.discharge(r, kf, [ts.union_inner_flags_contract()] + [ts.composite_type_string_contract(k) for k in ("ModelProperty", "ListProperty", "ConstProperty")], "C11", tier, seed)
         return r
     tasks.append(tu)
     for r in core.run_parallel(tasks):
